@@ -186,7 +186,7 @@ def _is_class(t):
 
 def symtab(t):
     """(kind name lineno (symbols) (frees) (nonlocals) (parameters) (methods) (children))
-    symbol = (name assigned parameter global declared_global nonlocal free)"""
+    symbol = (name assigned parameter global declared_global nonlocal free local)"""
     if _is_function(t):
         kind = "function"
     elif _is_class(t):
@@ -197,7 +197,7 @@ def symtab(t):
         kind = "other"
     b = lambda x: "1" if x else "0"
     syms = lst(lambda s: f"({ident(s.get_name())} {b(s.is_assigned())} {b(s.is_parameter())} {b(s.is_global())} "
-                         f"{b(s.is_declared_global())} {b(s.is_nonlocal())} {b(s.is_free())})", t.get_symbols())
+                         f"{b(s.is_declared_global())} {b(s.is_nonlocal())} {b(s.is_free())} {b(s.is_local())})", t.get_symbols())
     frees = lst(ident, t.get_frees()) if kind == "function" else "()"
     nonlocals = lst(ident, t.get_nonlocals()) if kind == "function" else "()"
     params = lst(ident, t.get_parameters()) if kind == "function" else "()"
